@@ -66,9 +66,17 @@ let plain (n : string) : bool =
   n <> "" && n <> "." && n <> ".." &&
   Stdlib.String.for_all (fun c -> (c >= 'A' && c <= 'Z') || (c >= 'a' && c <= 'z') || (c >= '0' && c <= '9') || c = '_' || c = '.' || c = '-') n
 
+(* a relative path of plain components (`sub/a.asm`): the harness materialises such files below its private directory,
+   and the model's resolve_path (parent of the including file + name) covers them *)
+let relpath_ok (n : string) : bool =
+  n <> "" && Stdlib.List.for_all plain (Stdlib.String.split_on_char '/' n)
+(* `n` names a directory of the project (a proper prefix of a file's path) *)
+let is_dir_of (files : string list) (n : string) : bool =
+  Stdlib.List.exists (fun f -> let k = Stdlib.String.length n in Stdlib.String.length f > k + 1 && Stdlib.String.sub f 0 (k + 1) = n ^ "/") files
+
 (* does some file name a path in `.include` / `.dfile` that the model's path functions do not cover
    (anything but a plain file name: the real file system then answers for directories, `..`, absolute paths ...) *)
-let special_paths (texts : BinNums.coq_N list list) : bool =
+let special_paths_in (fnames : string list) (texts : BinNums.coq_N list list) : bool =
   Stdlib.List.exists (fun text ->
     match CtxModel.parse_source text with
     | CtxModel.Parsed (items, _) ->
@@ -77,17 +85,19 @@ let special_paths (texts : BinNums.coq_N list list) : bool =
               | Types.EDirective (name, args) ->
                   let n = str_of_bytes name in
                   (n = "include" || n = "dfile") &&
-                  Stdlib.List.exists (fun a -> match a with Types.AStr s -> not (plain (str_of_bytes s)) | _ -> false) args
+                  Stdlib.List.exists (fun a -> match a with Types.AStr s -> let v = str_of_bytes s in not (relpath_ok v) || is_dir_of fnames v | _ -> false) args
               | _ -> false)
-          | _ -> false) items) texts
+          | _ -> false) items
+    | _ -> false) texts
+let special_paths (texts : BinNums.coq_N list list) : bool = special_paths_in [] texts
 
 (* model = implementation on one case; `on_disk` = the files the harness materialised (P form: none) *)
 let compare_model (case : string) (impl : string) (files : (string * BinNums.coq_N list) list) (root : string)
                   (root_text : BinNums.coq_N list) (on_disk : bool) : unit =
-  if Stdlib.List.exists (fun (n, _) -> not (plain n)) files || special_paths (Stdlib.List.map snd files) then count "model.not_compared_special_path"
+  if Stdlib.List.exists (fun (n, _) -> not (relpath_ok n)) files || not (plain root) || special_paths_in (Stdlib.List.map fst files) (Stdlib.List.map snd files) then count "model.not_compared_special_path"
   else begin
     let fs (p : BinNums.coq_N list) = let s = str_of_bytes p in
-      if on_disk && plain s then (try Some (Stdlib.List.assoc s files) with Not_found -> None) else None in
+      if on_disk && relpath_ok s then (try Some (Stdlib.List.assoc s files) with Not_found -> None) else None in
     let dbg = (field impl "dbg" = "1") in
     let m = model_text dbg fs (bytes_of_str root) root_text in
     let impl_obs = Printf.sprintf "status=%s diags=%s regions=%s" (field impl "status") (field impl "diags") (field impl "regions") in
